@@ -2,7 +2,7 @@
    database update outdates every cache file of the stack. *)
 From Eupsv Require Import Base.Base Base.BaseLemmas Model.Db Model.Cache.
 From Eupsv Require Import Proofs.DbLib Proofs.Db Proofs.DbSim Proofs.DbInv Proofs.DbCor.
-From Eupsv Require Import Proofs.CacheLib Proofs.CacheWt Proofs.CacheRebuild Proofs.CacheEff Proofs.CacheInv
+From Eupsv Require Import Proofs.CacheLib Proofs.CacheWt Proofs.CacheRebuild Proofs.CacheEff Proofs.CacheU Proofs.CacheInv
   Proofs.CacheLoad Proofs.CacheProc.
 From Coq Require Import Lia.
 
@@ -14,61 +14,75 @@ Proof.
 Qed.
 
 Lemma try_cache_bool_indep w loc s fls ps :
-  ps_lookup ps = [] -> snd (try_cache w loc s fls ps) = believed w loc s fls.
+  ps_lookup ps = [] -> snd (try_cache false w loc s fls ps) = believed w loc s fls.
 Proof.
-  intro H. unfold believed, try_cache. destruct (forallb (up_to_date w loc s) fls); [|reflexivity].
+  intro H. unfold believed, try_cache. destruct (forallb (up_to_date false w loc s) fls); [|reflexivity].
   unfold ps_names. rewrite (reload_lookup_indep w loc s fls ps ps_empty H).
   destruct (same_names _ _); reflexivity.
 Qed.
 
 (* absent, or older than a record: not believed *)
 Lemma not_up_to_date_not_believed w loc s nf f :
-  In f nf -> up_to_date w loc s f = false -> believed w loc s nf = false.
+  In f nf -> up_to_date false w loc s f = false -> believed w loc s nf = false.
 Proof.
   intros Hf H. unfold believed, try_cache.
-  assert (X : forallb (up_to_date w loc s) nf = false).
-  { destruct (forallb (up_to_date w loc s) nf) eqn:E; [|reflexivity].
+  assert (X : forallb (up_to_date false w loc s) nf = false).
+  { destruct (forallb (up_to_date false w loc s) nf) eqn:E; [|reflexivity].
     rewrite forallb_forall in E. rewrite (E f Hf) in H. discriminate. }
   rewrite X. reflexivity.
 Qed.
 
-Lemma absent_not_up_to_date w loc s f : pk_get w loc s f = None -> up_to_date w loc s f = false.
+Lemma absent_not_up_to_date w loc s f : pk_get w loc s f = None -> up_to_date false w loc s f = false.
 Proof. intro H. unfold up_to_date. rewrite H. reflexivity. Qed.
 
 Lemma older_not_up_to_date w loc s f p :
-  pk_get w loc s f = Some p -> newer_than w s (pk_stamp p) = true -> up_to_date w loc s f = false.
-Proof. intros H1 H2. unfold up_to_date. rewrite H1, H2. reflexivity. Qed.
+  pk_get w loc s f = Some p -> newer_than w s (pk_stamp p) = true -> up_to_date false w loc s f = false.
+Proof. intros H1 H2. unfold up_to_date. rewrite H1, H2. apply andb_false_r. Qed.
 
-Lemma stale_rebuilt tick w s loc nf :
-  clock_strict tick -> INV w ->
-  believed w loc s nf = false -> believed w upsdb s nf = false ->
-  let '(w', ps) := from_cache tick w s loc nf in
-  (forall f, In f (db_flavors (w_db w) s) -> alookup f (ps_lookup ps) = Some (rebuild_fdata (w_db w) s f)) /\
-  (forall f, In f nf -> exists p, pk_get w' loc s f = Some p /\ w_clock w < pk_stamp p) /\
-  ps_ok w' s ps /\ w_db w' = w_db w.
+(* the same for the owner's tag directory: a cache file in a user's directory that is older than a file
+   of his tag directory is not up to date *)
+Lemma uolder_not_up_to_date w loc s f p :
+  loc <> upsdb -> pk_get w loc s f = Some p -> unewer_than w loc s (pk_stamp p) = true ->
+  up_to_date false w loc s f = false.
 Proof.
-  intros CS I B1 B2. unfold from_cache.
+  intros N H1 H2. unfold up_to_date. rewrite H1, H2. destruct (str_eqb_spec loc upsdb); [contradiction|]. reflexivity.
+Qed.
+
+Lemma stale_rebuilt tick w s loc utd nf :
+  clock_strict tick -> INV w -> utd = owner loc ->
+  believed w loc s nf = false -> believed w upsdb s nf = false ->
+  let '(w', ps) := from_cache tick false w s loc utd nf in
+  (forall f, In f (db_flavors (w_db w) s) ->
+     alookup f (ps_lookup ps) = Some (rebuild_fdata (w_db w) (w_uc w) utd s f)) /\
+  (forall f, In f nf -> exists p, pk_get w' loc s f = Some p /\ w_clock w < pk_stamp p) /\
+  ps_ok w' utd s ps /\ w_db w' = w_db w /\ w_uc w' = w_uc w.
+Proof.
+  intros CS I Hutd B1 B2. unfold from_cache.
   assert (MT0 : mt_ok w s ps_empty) by (intros l f m p H; discriminate).
-  destruct (try_cache w loc s nf ps_empty) as [ps1 b1] eqn:T1.
+  destruct (try_cache false w loc s nf ps_empty) as [ps1 b1] eqn:T1.
   assert (Eb1 : b1 = false) by (unfold believed in B1; rewrite T1 in B1; exact B1). subst b1.
   destruct (try_cache_false _ _ _ _ _ _ MT0 eq_refl T1) as [MT1 Nil1].
-  destruct (try_cache w upsdb s nf ps1) as [ps2 b2] eqn:T2.
+  destruct (try_cache false w upsdb s nf ps1) as [ps2 b2] eqn:T2.
   assert (Eb2 : b2 = false).
   { pose proof (try_cache_bool_indep w upsdb s nf ps1 Nil1) as X. rewrite T2 in X. cbn [snd] in X. congruence. }
   subst b2. destruct (try_cache_false _ _ _ _ _ _ MT1 Nil1 T2) as [MT2 _].
-  destruct (save tick w s loc (uniq (akeys (rebuild_lookup (w_db w) s) ++ nf))
-              (mkPS (rebuild_lookup (w_db w) s) (ps_modtimes ps2))) as [[w3 ps3] b] eqn:Es.
-  assert (OK0 : ps_ok w s (mkPS (rebuild_lookup (w_db w) s) (ps_modtimes ps2))).
-  { split; [|exact MT2]. intros f fd H. cbn [ps_lookup] in H. rewrite rebuild_lookup_lookup in H.
-    destruct (mem_str f (db_flavors (w_db w) s)); inversion H. apply rebuild_agree. apply (inv_nd w I). }
-  assert (Hnew : forall f, In f (uniq (akeys (rebuild_lookup (w_db w) s) ++ nf)) ->
-            alookup f (ps_lookup (mkPS (rebuild_lookup (w_db w) s) (ps_modtimes ps2))) = None ->
+  destruct (save tick w s loc (uniq (akeys (rebuild_lookup (w_db w) (w_uc w) utd s) ++ nf))
+              (mkPS (rebuild_lookup (w_db w) (w_uc w) utd s) (ps_modtimes ps2))) as [[w3 ps3] b] eqn:Es.
+  assert (OK0 : ps_ok w (owner loc) s (mkPS (rebuild_lookup (w_db w) (w_uc w) utd s) (ps_modtimes ps2))).
+  { split; [|split; [|exact MT2]]; intros f fd H; cbn [ps_lookup] in H; rewrite rebuild_lookup_lookup in H;
+      destruct (mem_str f (db_flavors (w_db w) s)); inversion H.
+    - apply rebuild_agree. apply (inv_nd w I).
+    - rewrite <- Hutd. intro n.
+      apply (ugood_uagree_n _ (w_db w) (w_uc w) utd s f n (rebuild_agree (w_db w) (w_uc w) utd s f (inv_nd w I) n)).
+      apply rebuild_uagree. }
+  assert (Hnew : forall f, In f (uniq (akeys (rebuild_lookup (w_db w) (w_uc w) utd s) ++ nf)) ->
+            alookup f (ps_lookup (mkPS (rebuild_lookup (w_db w) (w_uc w) utd s) (ps_modtimes ps2))) = None ->
             agree [] (w_db w) s f).
   { intros f _ H. cbn [ps_lookup] in H. rewrite rebuild_lookup_lookup in H.
     destruct (mem_str f (db_flavors (w_db w) s)) eqn:M; [discriminate|].
     apply empty_agree; [apply (inv_nd w I)|]. apply mem_str_not_In. exact M. }
-  destruct (save_ok tick s loc _ _ _ _ _ _ CS I OK0 Hnew Es) as [I3 [OK3 [[D3 _] [_ [_ [L3 L4]]]]]].
-  split; [|split; [|split; [exact OK3|exact D3]]].
+  destruct (save_ok tick s loc _ _ _ _ _ _ CS I OK0 Hnew Es) as [I3 [OK3 [[D3 [_ [_ [U3 _]]]] [_ [_ [L3 L4]]]]]].
+  split; [|split; [|split; [rewrite Hutd; exact OK3|split; [exact D3|exact U3]]]].
   - intros f Hf. apply L3. cbn [ps_lookup]. rewrite rebuild_lookup_lookup.
     apply mem_str_In in Hf. rewrite Hf. reflexivity.
   - intros f Hf. apply L4. apply uniq_In. apply in_or_app. right. exact Hf.
@@ -80,12 +94,29 @@ Lemma act_outdates tick w x l f p :
   clock_strict tick -> INV w -> compile (w_db w) x <> [] ->
   pk_get w l (act_stack x) f = Some p ->
   In (act_name x) (db_names (w_db (do_act tick w x)) (act_stack x)) ->
-  up_to_date (do_act tick w x) l (act_stack x) f = false.
+  up_to_date false (do_act tick w x) l (act_stack x) f = false.
 Proof.
   intros CS I Ne Hp Hn. unfold up_to_date. rewrite (pk_get_pickles w) by apply do_act_pickles. rewrite Hp.
-  apply negb_false_iff. unfold newer_than. apply existsb_exists. exists (act_name x). split; [exact Hn|].
+  apply andb_false_iff. right. apply negb_false_iff. unfold newer_than. apply existsb_exists. exists (act_name x). split; [exact Hn|].
   destruct (compile_touch (w_db w) x) as [Nil|T]; [contradiction|].
   assert (Fresh : pk_stamp p < stamp_of (w_stamps (do_act tick w x)) (RDir (act_stack x) (act_name x))).
   { unfold do_act. apply dir_stamp_touch; auto; [apply compile_scope|]. exact (inv_pc w I _ _ _ _ Hp). }
   unfold newer_n. apply Nat.ltb_lt in Fresh. rewrite Fresh. reflexivity.
+Qed.
+
+(* a write in a user's tag directory leaves that directory newer than every cache file of his for the
+   stack: while the product has a version file, none of them is up to date *)
+Lemma uset_outdates tick w u s n t f v f0 p :
+  clock_strict tick -> INV w -> u <> upsdb -> pk_get w u s f0 = Some p -> In n (db_names (w_db w) s) ->
+  up_to_date false (do_uset tick w u s n t f v) u s f0 = false.
+Proof.
+  intros CS I Hu Hp Hn. unfold up_to_date.
+  replace (pk_get (do_uset tick w u s n t f v) u s f0) with (pk_get w u s f0) by reflexivity. rewrite Hp.
+  apply andb_false_iff. left. apply negb_false_iff. destruct (str_eqb_spec u upsdb); [contradiction|]. cbn [negb andb].
+  unfold unewer_than. apply existsb_exists. exists n. split; [exact Hn|].
+  unfold unewer_n. apply orb_true_iff. left. apply Nat.ltb_lt.
+  replace (w_stamps (do_uset tick w u s n t f v))
+    with (sset (RUChain u s (n, t)) (tick (w_clock w)) (sset (RUDir u s n) (tick (w_clock w)) (w_stamps w))) by reflexivity.
+  rewrite !stamp_of_sset. cbn [rkey_eqb]. rewrite !str_eqb_refl. cbn [andb].
+  pose proof (inv_pc w I _ _ _ _ Hp). pose proof (CS (w_clock w)). lia.
 Qed.
